@@ -5,7 +5,9 @@ import (
 	"fmt"
 	"os"
 	"path/filepath"
+	"runtime/metrics"
 	"sync"
+	"sync/atomic"
 	"time"
 
 	"verifsim/simrt"
@@ -17,8 +19,9 @@ import (
 // goroutine outside every bubble watches the run that is in flight; when it fires it writes the worker's result with
 // that one violation and a replay file (case + run seed; the tape is regenerated from the seed) and ends the process.
 //
-// Both limits are far outside what the unchanged tree needs (largest single run observed: well under a minute and
-// a few hundred MB, see the max:rss-mb / max:run-wall-s counters in the evidence).
+// Both limits are far outside what the unchanged tree needs (see the max:heap-mb / max:rss-mb / max:run-wall-s
+// counters in the evidence). The memory limit is on heap objects, not on the resident set: crash-image arms with
+// multi-megabyte values legitimately reach a resident set of 3 GB (freed but not yet returned memory).
 // ---------------------------------------------------------------------------
 
 type watchState struct {
@@ -55,25 +58,38 @@ func (c *Ctx) Begin(seed int64, cs any) {
 	if r := rssMB(); r > c.Res.Counters["max:rss-mb"] {
 		c.Res.Counters["max:rss-mb"] = r
 	}
+	if h := int(heapPeakMB.Load()); h > c.Res.Counters["max:heap-mb"] {
+		c.Res.Counters["max:heap-mb"] = h
+	}
 }
 
-func watchLimits(tier string) (rssLimit int, hang time.Duration) {
-	rssLimit = int(envInt("VERIF_RUNAWAY_MB", 3000))
-	if simrt.RaceBuild {
-		rssLimit = int(envInt("VERIF_RUNAWAY_MB", 6000))
+var heapPeakMB atomic.Int64
+
+// heapMB: bytes occupied by live and not yet swept heap objects. Unlike the resident set size it does not count
+// memory the runtime has freed but not yet returned, simulator scratch files, or the race detector's shadow.
+func heapMB() int {
+	s := []metrics.Sample{{Name: "/memory/classes/heap/objects:bytes"}}
+	metrics.Read(s)
+	if s[0].Value.Kind() != metrics.KindUint64 {
+		return 0
 	}
+	return int(s[0].Value.Uint64() >> 20)
+}
+
+func watchLimits(tier string) (heapLimit int, hang time.Duration) {
+	heapLimit = int(envInt("VERIF_RUNAWAY_MB", 5000))
 	hs := int64(600)
 	if tier == "thorough" {
 		hs = 1200
 	}
-	return rssLimit, time.Duration(envInt("VERIF_HANG_S", hs)) * time.Second
+	return heapLimit, time.Duration(envInt("VERIF_HANG_S", hs)) * time.Second
 }
 
 func (c *Ctx) startWatchdog() {
 	if out := os.Getenv("VERIF_OUT"); out != "" {
 		watch.curPath = out + ".current"
 	}
-	rssLimit, hang := watchLimits(c.Tier)
+	heapLimit, hang := watchLimits(c.Tier)
 	go func() {
 		for {
 			time.Sleep(50 * time.Millisecond)
@@ -83,8 +99,12 @@ func (c *Ctx) startWatchdog() {
 			if began.IsZero() {
 				continue
 			}
-			if r := rssMB(); r > rssLimit {
-				c.watchdogFire("runaway-memory", fmt.Sprintf("the process grew to %d MB resident during one simulated run (limit %d MB): a call into the code under test allocates without bound", r, rssLimit), seed, cs, rp)
+			h := heapMB()
+			if int64(h) > heapPeakMB.Load() {
+				heapPeakMB.Store(int64(h))
+			}
+			if h > heapLimit {
+				c.watchdogFire("runaway-memory", fmt.Sprintf("the heap grew to %d MB of objects during one simulated run (limit %d MB): a call into the code under test allocates without bound", h, heapLimit), seed, cs, rp)
 			}
 			if d := time.Since(began); d > hang {
 				c.watchdogFire("no-return", fmt.Sprintf("one simulated run has not finished after %v of wall-clock time: a call into the code under test does not return", d.Round(time.Second)), seed, cs, rp)
